@@ -52,6 +52,7 @@ type WorkItem struct {
 	Prefix []uint64
 	Model  map[string]uint64
 	Flags  int // 1 = feasibility of last decision unknown
+	fd     *fdState
 }
 
 // Violation is a failed assertion (or escaping panic etc.) with a model.
@@ -86,6 +87,8 @@ type pathCtx struct {
 	reached map[string]bool
 	samples int
 	imprecise int
+	fd      *fdState
+	fdFrom  *fdState // snapshot at the branch point (valid once the prefix is consumed)
 }
 
 func newPathCtx(i *interpreter, it WorkItem, budget int64) *pathCtx {
@@ -94,10 +97,14 @@ func newPathCtx(i *interpreter, it WorkItem, budget int64) *pathCtx {
 		m = map[string]uint64{}
 	}
 	return &pathCtx{i: i, prefix: it.Prefix, model: m, memo: map[*smt.Term]uint64{},
-		vars: map[string]*smt.Term{}, budget: budget, reached: map[string]bool{}, flagged: it.Flags&1 != 0}
+		vars: map[string]*smt.Term{}, budget: budget, reached: map[string]bool{}, flagged: it.Flags&1 != 0, fd: newFD(), fdFrom: it.fd}
 }
 
-func (p *pathCtx) newVar(tag string, w uint8) *smt.Term {
+func (p *pathCtx) newVar(tag string, w uint8) *smt.Term { return p.newVarDom(tag, w, nil) }
+
+// newVarDom creates (or returns) the symbolic input tag; dom, when non-nil, is
+// its complete finite domain (the caller also assumes the matching constraint).
+func (p *pathCtx) newVarDom(tag string, w uint8, dom []uint64) *smt.Term {
 	tag = strings.NewReplacer("|", "!", "\\", "!", " ", "_").Replace(tag)
 	if v, ok := p.vars[tag]; ok {
 		if v.W != w {
@@ -108,6 +115,16 @@ func (p *pathCtx) newVar(tag string, w uint8) *smt.Term {
 	v := smt.Var(tag, w)
 	p.vars[tag] = v
 	p.order = append(p.order, tag)
+	if dom == nil && w == 0 {
+		dom = []uint64{0, 1}
+	}
+	if dom == nil && w == 8 {
+		dom = make([]uint64, 256)
+		for k := range dom {
+			dom[k] = uint64(k)
+		}
+	}
+	p.fd.declare(tag, dom)
 	return v
 }
 
@@ -119,6 +136,51 @@ func (p *pathCtx) setModel(m map[string]uint64) {
 }
 
 func (p *pathCtx) addPC(t *smt.Term) {
+	if t.IsConst() {
+		return
+	}
+	p.pc = append(p.pc, t)
+	if p.fdFrom != nil {
+		if p.inReplay() {
+			return // covered by the snapshot taken at the branch point
+		}
+		// first constraint past the prefix: continue from the snapshot
+		for n, d := range p.fd.dom {
+			if _, ok := p.fdFrom.dom[n]; !ok {
+				p.fdFrom.declare(n, d)
+			}
+		}
+		p.fd = p.fdFrom
+		p.fdFrom = nil
+	}
+	p.fd.add(t)
+}
+
+// childFD is the finite-domain state of a child that takes constraint t.
+func (p *pathCtx) childFD(t *smt.Term) *fdState {
+	p.settleFD()
+	c := p.fd.clone()
+	if t != nil {
+		c.add(t)
+	}
+	return c
+}
+
+// settleFD switches to the branch-point snapshot when the prefix is consumed.
+func (p *pathCtx) settleFD() {
+	if p.fdFrom != nil && !p.inReplay() {
+		for n, d := range p.fd.dom {
+			if _, ok := p.fdFrom.dom[n]; !ok {
+				p.fdFrom.declare(n, d)
+			}
+		}
+		p.fd = p.fdFrom
+		p.fdFrom = nil
+	}
+}
+
+// addDomainPC records the constraint that merely restates a declared domain.
+func (p *pathCtx) addDomainPC(t *smt.Term) {
 	if t.IsConst() {
 		return
 	}
@@ -143,6 +205,41 @@ func (p *pathCtx) sync() *smt.Solver {
 
 // query checks pc ∧ extra.  On Sat it returns a model.
 func (p *pathCtx) query(extra *smt.Term) (smt.Result, map[string]uint64) {
+	return p.queryMode(extra, false)
+}
+
+// queryMode: forceSMT is set for property assertions, which are always
+// discharged by the SMT solver.
+func (p *pathCtx) queryMode(extra *smt.Term, forceSMT bool) (smt.Result, map[string]uint64) {
+	p.settleFD()
+	if !forceSMT && !p.i.cfg.NoFD {
+		if sat, wit, ok := p.fd.feasible(extra); ok {
+			st := &p.i.stats
+			p.i.fdTick++
+			if p.i.cfg.CrossCheckFD > 0 && p.i.fdTick%p.i.cfg.CrossCheckFD == 0 {
+				r, m := p.smtQuery(extra)
+				st.FDCrossChecked++
+				if (r == smt.Sat) != sat && r != smt.Unknown {
+					st.FDMismatch++
+					return r, m
+				}
+			}
+			if sat {
+				st.FDSat++
+				m := copyModel(p.model)
+				for k, v := range wit {
+					m[k] = v
+				}
+				return smt.Sat, m
+			}
+			st.FDUnsat++
+			return smt.Unsat, nil
+		}
+	}
+	return p.smtQuery(extra)
+}
+
+func (p *pathCtx) smtQuery(extra *smt.Term) (smt.Result, map[string]uint64) {
 	s := p.sync()
 	s.Push()
 	s.Assert(extra)
@@ -201,10 +298,10 @@ func (p *pathCtx) decide(c *smt.Term) bool {
 	switch r {
 	case smt.Sat:
 		st.Forks++
-		p.i.push(WorkItem{Prefix: appendCopy(p.prefix, b2u(!cur)), Model: m})
+		p.i.push(WorkItem{Prefix: appendCopy(p.prefix, b2u(!cur)), Model: m, fd: p.childFD(other)})
 	case smt.Unknown:
 		st.UnknownFeasibility++
-		p.i.push(WorkItem{Prefix: appendCopy(p.prefix, b2u(!cur)), Model: copyModel(p.model), Flags: 1})
+		p.i.push(WorkItem{Prefix: appendCopy(p.prefix, b2u(!cur)), Model: copyModel(p.model), Flags: 1, fd: p.childFD(other)})
 	}
 	p.prefix = append(p.prefix, b2u(cur))
 	p.pos++
@@ -247,6 +344,26 @@ func (p *pathCtx) concretize(t *smt.Term) uint64 {
 	st := &p.i.stats
 	st.Decisions++
 	v0 := p.eval(t)
+	if !p.i.cfg.NoFD {
+		if vals, wits, ok := p.fd.values(t); ok {
+			for k, vi := range vals {
+				if vi == v0 {
+					continue
+				}
+				st.Forks++
+				st.FDSat++
+				m := copyModel(p.model)
+				for n, v := range wits[k] {
+					m[n] = v
+				}
+				p.i.push(WorkItem{Prefix: appendCopy(p.prefix, vi), Model: m, fd: p.childFD(smt.Eq(t, smt.Const(t.W, vi)))})
+			}
+			p.prefix = append(p.prefix, v0)
+			p.pos++
+			p.addPC(smt.Eq(t, smt.Const(t.W, v0)))
+			return v0
+		}
+	}
 	s := p.sync()
 	s.Push()
 	s.Assert(smt.Not(smt.Eq(t, smt.Const(t.W, v0))))
@@ -274,7 +391,7 @@ func (p *pathCtx) concretize(t *smt.Term) uint64 {
 		}
 		vi := smt.Eval(t, m, map[*smt.Term]uint64{})
 		st.Forks++
-		p.i.push(WorkItem{Prefix: appendCopy(p.prefix, vi), Model: m})
+		p.i.push(WorkItem{Prefix: appendCopy(p.prefix, vi), Model: m, fd: p.childFD(smt.Eq(t, smt.Const(t.W, vi)))})
 		s.Assert(smt.Not(smt.Eq(t, smt.Const(t.W, vi))))
 		n++
 		if n >= concretizeCap {
@@ -333,7 +450,7 @@ func (p *pathCtx) check(c *smt.Term, msg string, site string) {
 		}
 		return
 	}
-	r, m := p.query(smt.Not(c))
+	r, m := p.queryMode(smt.Not(c), true)
 	switch r {
 	case smt.Sat:
 		p.violation("assert", msg, site, m)
